@@ -1,4 +1,5 @@
 import Bluebell.Props.C06
+import Bluebell.Props.C03
 /-!
 # C04 — documented markup yields the documented element tree
 
@@ -14,6 +15,10 @@ Kernel-evaluated instances:
   no header) and an escaped dash in a num;
 * `C04_examples` — a document using hierarchy with intro / hcontainer / wrapUp grouping, lists, a table,
   inline forms with attributes and class syntax: the body equals the prescribed tree.
+Grammar-level, for every text and offset (the first fragment of the structural induction):
+* `C04_plain_line_is_a_p`, `C04_escaped_line_is_a_p` — a line of plain text, and a line written with every
+  character escaped, are read by every block-level rule as the dict item of a paragraph holding exactly that
+  text, and the XML generator turns that item into `<p>text</p>` (`C04_p_item_to_xml`).
 The statement for every abstract document is decided on the real code by the specification oracle
 (harness/absdoc.py: independent printer + prescribed tree, whole vocabulary, seven roots); the structural
 induction over abstract documents is not yet a theorem.
@@ -98,5 +103,27 @@ theorem C04_examples :
           .elem "wrapUp" [] [.elem "table" [] [.elem "tr" [] [
             .elem "th" [("colspan", "2")] [.elem "p" [] [.text "h"]], .elem "td" [] [.elem "p" [] [.text "c"]]]]]]]) = true := by
   decide +kernel
+
+/-! ## The first fragment at the grammar level: paragraphs -/
+
+/-- the dict item of a paragraph becomes the element `<p>text</p>` whenever the text is XML-compatible -/
+theorem C04_p_item_to_xml (u : Uris) (parent : Option String) (fuel : Nat) (s : String) (st : GenState)
+    (hs : xmlTextOk s = true) (hne : s ≠ "") :
+    (itemToXml u parent (fuel + 3) (.node "content" "p" none (some [Item.text s]) none none none none none) st).1
+      = .ok (.elem "p" [] [.text s]) := by
+  simp [itemToXml, itemsToXml, mkElem, makerCheck, mergeText, hs, Except.bind, hne]
+
+theorem C04_plain_line_is_a_p (inp : Array Char) (p : Nat) (c : Char) (r : List Char)
+    (h : AtPlain inp p (c :: r)) (hc : c ≠ Char.ofNat 15) (hb : blockChoosesLine c = true) :
+    ∃ t, (∀ fuel, toDict inp (fuel + 2) t
+            = .node "content" "p" none (some [Item.text (String.ofList (c :: r))]) none none none none none) ∧
+      ∀ rule ∈ blockLevelRules, Lim aknExec inp (.ref rule) p (.ok t) :=
+  C03_plain_line_is_its_text inp p c r h hc hb
+
+theorem C04_escaped_line_is_a_p (inp : Array Char) (p : Nat) (c : Char) (w : List Char) (h : AtEsc inp p (c :: w)) :
+    ∃ t, (∀ fuel, toDict inp (fuel + 2) t
+            = .node "content" "p" none (some [Item.text (String.ofList (c :: w))]) none none none none none) ∧
+      ∀ r ∈ blockLevelRules, Lim aknExec inp (.ref r) p (.ok t) :=
+  C13_block_level_reads_escaped_line inp p c w h
 
 end Bluebell
